@@ -575,8 +575,12 @@ func leafClass(m *M, env map[string]string) string {
 		return "F-C16-legacy-rhs"
 	}
 	if lIsV {
-		if pv, _ := refParseVersion(l); pv.isPre() {
+		pv, _ := refParseVersion(l)
+		if pv.isPre() {
 			return "F-C16-pre-lhs"
+		}
+		if pv.isPost() && m.Op == "!=" {
+			return "F-C16-post-lhs-ne"
 		}
 	}
 	return ""
@@ -604,7 +608,7 @@ func tripleEqPlain(l, r string) bool {
 	return l == r || (isPlainWord(r) && strings.ToLower(l) != strings.ToLower(r))
 }
 
-var classOrder = []string{"F-C16-in", "F-C16-extra-op", "F-C16-eqeqeq-case", "F-C16-wild-ordered", "F-C16-legacy-rhs", "F-C16-pre-lhs", "F-C16-extra-multi"}
+var classOrder = []string{"F-C16-in", "F-C16-extra-op", "F-C16-eqeqeq-case", "F-C16-wild-ordered", "F-C16-legacy-rhs", "F-C16-pre-lhs", "F-C16-post-lhs-ne", "F-C16-extra-multi"}
 
 func markerClasses(m *M, env map[string]string, extras []string) map[string]bool {
 	out := map[string]bool{}
